@@ -188,7 +188,7 @@ func CheckC03(r *core.Run) {
 		traces = append(traces, replayTxFile(r, "TxReplay_t.cfg", 2, 10)...)
 		traces = append(traces, replayTxFile(r, "TxReplay_t2.cfg", 3, 2)...)
 	} else {
-		traces = append(traces, replayTxFile(r, "TxReplay_q.cfg", 2, 1)...)
+		traces = append(traces, replayTxFile(r, "TxReplay_q.cfg", 2, 3)...)
 	}
 	if len(traces) > 0 && traces[0] != nil {
 		n := len(traces[0].Events)
